@@ -161,7 +161,7 @@ def gen_wb(rng, big=False):
     return spell_tx.init_orig(spell.wb_from_form(form))
 
 
-ALL_TX = list(spell_tx.TX)
+ALL_TX = [t for t in spell_tx.TX if t != "blank_run"]
 
 
 def pick_tx(rng, channel):
@@ -228,6 +228,10 @@ def meta_case(ctx, rng, big=False):
     if not channel_ok(wb, channel):
         channel = "dict"
     names = pick_tx(rng, channel)
+    if rng.random() < 0.06 and channel_ok(wb, "xlsx"):
+        # long blank runs around the readers' end-of-data limit, through the channels that keep blank rows
+        channel = rng.choice(["xlsx", "xlsx", "dict"])
+        names = ["blank_run"] + [t for t in names if t in ("hdr_case", "hdr_space", "hdr_alias", "type_alias", "cell_space")][:1]
     wb2, labels = spell_tx.apply(rng, wb, names)
     if not labels:
         ctx.count("no-site")
@@ -406,6 +410,22 @@ def exhaustive(ctx):
             for o in orders[1:]:
                 compare(ctx, build(orders[0]), build(o), [f"col_perm:{sname}:{'|'.join(o)}"], "dict", tag="alias")
                 n += 1
+    # blank runs of 59 / 60 rows (the Excel readers' limit: 61 ends the data) inside survey and choices, xlsx and dict
+    for sname in ("survey", "choices"):
+        for k in (spell_tx.BLANK_RUN_LIMIT - 1, spell_tx.BLANK_RUN_LIMIT):
+            for pos in (1, 2):
+                for channel in ("xlsx", "dict"):
+                    f = base_form()
+                    f["survey"].insert(1, {"type": "note", "label": "unnamed"})
+                    f["choices"].append({"list_name": "l", "name": "c"})
+                    wb = spell_tx.init_orig(spell.wb_from_form(f))
+                    wb2 = copy.deepcopy(wb)
+                    s2 = spell.sheet(wb2, sname)
+                    for _ in range(k):
+                        s2["rows"].insert(pos, [None] * len(s2["cols"]))
+                        s2["orig"].insert(pos, None)
+                    compare(ctx, wb, wb2, [f"blank_run:{sname}:{pos}x{k}"], channel, tag="alias")
+                    n += 1
     # blank rows in the choices sheet above choices that draw a row-numbered message (unlabeled choice)
     for k in range(0, 4):
         for cnt in (1, 2):
